@@ -64,11 +64,14 @@ def run(ctx):
     data = learn()
     blocks, raw_blocks = [], []
 
-    def add_block(b, impolite=False, little=False):
+    def add_block(b, impolite=False, little=False, frozen=False):
         """little: the caller keeps its bits in little-endian bitarrays (same bit sequence, other storage order)"""
         err = ""
         if little:
             b = bitarray(b.tolist(), endian="little")
+        if frozen:
+            from bitarray import frozenbitarray
+            b = frozenbitarray(b)        # bits the callee cannot resize or write to
         enc = dec = encb = db = bitarray()
         try:
             if impolite:
@@ -83,9 +86,9 @@ def run(ctx):
                 d1 = T.decode(e0.copy(), as_bytes=True)
                 if isinstance(d1, bytearray):
                     d1[0] ^= 0xFF
-            enc = T.encode(b.copy())
+            enc = T.encode(b if frozen else b.copy())
             encb = T.encode(bytes(bitarray(b.tolist(), endian="big").tobytes()))
-            held = bitarray(enc.tolist(), endian="little") if little else enc.copy()
+            held = bitarray(enc.tolist(), endian="little") if little else (frozenbitarray(enc) if frozen else enc.copy())
             dec = T.decode(held)
             decb = T.decode(bitarray(enc.tolist(), endian="little") if little else enc.copy(), as_bytes=True)
             db = bitarray()
@@ -112,7 +115,7 @@ def run(ctx):
         u[i] = 1
         add_block(u)
     for k in range(300 if ctx.quick else 60000):
-        add_block(bitarray([rng.getrandbits(1) for _ in range(144)]), impolite=k % 3 == 0, little=k % 4 == 1)
+        add_block(bitarray([rng.getrandbits(1) for _ in range(144)]), impolite=k % 3 == 0, little=k % 4 == 1, frozen=k % 5 == 2)
     for k in range(40):         # the same few blocks again and again, results damaged in between
         add_block(raw_blocks[k % 5][0].copy(), impolite=True)
     # the two permutations composed directly (the result of one handed straight to the other, earlier results kept)
